@@ -161,15 +161,32 @@ func (s c19Setting) applyBuilder(n *NodeBuilder, id int) {
 	}
 }
 
-// spec: the addressed parameter takes the new value, the others keep theirs
+// spec: the addressed parameter takes the new value, the others keep theirs. A meaningful value
+// (budget >= 1, wait >= 0, concurrency >= 0) must be reported back as given; what an out-of-range
+// value is stored as is not fixed by the property (an implementation may clamp it), only that every
+// form and order agrees on it: there the reference is the same setting applied alone, in option
+// form, to a fresh node.
 func (s c19Setting) spec(o c19Obs, id int) c19Obs {
 	switch s.kind {
 	case 0:
-		o.retries = s.i
+		if s.i >= 1 {
+			o.retries = s.i
+		} else {
+			vCover("out-of-range-value")
+			o.retries = NewNode(WithMaxRetries(s.i)).GetMaxRetries()
+		}
 	case 1:
-		o.wait = s.d
+		if s.d >= 0 {
+			o.wait = s.d
+		} else {
+			o.wait = NewNode(WithWait(s.d)).GetWait()
+		}
 	case 2:
-		o.conc = s.i
+		if s.i >= 0 {
+			o.conc = s.i
+		} else {
+			o.conc = NewNode(WithBatchConcurrency(s.i)).GetBatchConcurrency()
+		}
 	case 3:
 		if s.b {
 			o.mode = "continue"
@@ -339,11 +356,23 @@ func (s c19Setting) bApplyBuilder(n *BatchNodeBuilder, id int) {
 func (s c19Setting) bSpec(o c19BObs, id int) c19BObs {
 	switch s.kind {
 	case 0:
-		o.retries = s.i
+		if s.i >= 1 {
+			o.retries = s.i
+		} else {
+			o.retries = NewBatchNode(WithMaxRetries(s.i)).GetMaxRetries()
+		}
 	case 1:
-		o.wait = s.d
+		if s.d >= 0 {
+			o.wait = s.d
+		} else {
+			o.wait = NewBatchNode(WithWait(s.d)).GetWait()
+		}
 	case 2:
-		o.conc = s.i
+		if s.i >= 0 {
+			o.conc = s.i
+		} else {
+			o.conc = NewBatchNode(WithBatchConcurrency(s.i)).GetBatchConcurrency()
+		}
 	case 3:
 		if s.b {
 			o.mode = "continue"
